@@ -214,35 +214,37 @@ Definition join_type (c : pctx) : string := if c_cluster c then "GLOBAL ANY LEFT
 
 
 (* ---------- metric planners: the aggregate expressions, as small structured values ---------- *)
-(* fmt.Sprintf("%f", float64(d.Milliseconds())/1000): a millisecond count printed with six decimals.
-   Exact for every duration below 2^53 microseconds (the float64 nearest to ms/1000 rounds back to it). *)
-Definition dur_ms (dur_ns : Z) : Z := Z.quot dur_ns 1000000.
-Definition secs_text (ms : Z) : string :=
-  string_of_Z (Z.quot ms 1000) ++ "." ++ dec_pad 3 (Z.to_N (Z.rem ms 1000)) ++ "000".
+(* secondsText(d): the range in seconds printed exactly to the nanosecond, fmt "%d.%09d" of d/Second, d%Second with the
+   trailing zeros and a trailing dot trimmed ("5", "0.0015", "0.000000001") *)
+Definition trim_right_zeros (s : string) : string := rev_s (trim_left1 "0"%char (rev_s s "")) "".
+Definition secs_text (dur_ns : Z) : string :=
+  let i := string_of_Z (Z.quot dur_ns 1000000000) in
+  let f := trim_right_zeros (dec_pad 9 (Z.to_N (Z.rem dur_ns 1000000000))) in
+  if String.eqb f "" then i else i ++ "." ++ f.
 
 (* the value column of LRAPlanner *)
-Inductive lra_val := LVCount | LVCountDiv (ms : Z) | LVBytes | LVBytesDiv (ms : Z).
+Inductive lra_val := LVCount | LVCountDiv (dur_ns : Z) | LVBytes | LVBytesDiv (dur_ns : Z).
 Definition lra_val_of (f : lra_fn) (dur_ns : Z) : option lra_val :=
   match f with
-  | FRate => Some (LVCountDiv (dur_ms dur_ns))
+  | FRate => Some (LVCountDiv dur_ns)
   | FCountOverTime => Some LVCount
-  | FBytesRate => Some (LVBytesDiv (dur_ms dur_ns))
+  | FBytesRate => Some (LVBytesDiv dur_ns)
   | FBytesOverTime => Some LVBytes
   | _ => None                                                 (* col stays nil: NewCol(nil).String panics *)
   end.
 Definition lra_val_sql (v : lra_val) : expr :=
   match v with
   | LVCount => Raw "toFloat64(COUNT())"
-  | LVCountDiv ms => Sep " / " [Raw "toFloat64(COUNT())"; FloatV (secs_text ms)]
+  | LVCountDiv d => Sep " / " [Raw "toFloat64(COUNT())"; FloatV (secs_text d)]
   | LVBytes => Raw "toFloat64(sum(length(_string)))"
-  | LVBytesDiv ms => Sep " / " [Raw "toFloat64(sum(length(_string)))"; FloatV (secs_text ms)]
+  | LVBytesDiv d => Sep " / " [Raw "toFloat64(sum(length(_string)))"; FloatV (secs_text d)]
   end.
 
 (* the value column of UnwrapFunctionPlanner *)
-Inductive uw_val := UVSum | UVSumDiv (ms : Z) | UVAvg | UVMax | UVMin | UVFirst | UVLast | UVVarPop | UVStddevPop.
+Inductive uw_val := UVSum | UVSumDiv (dur_ns : Z) | UVAvg | UVMax | UVMin | UVFirst | UVLast | UVVarPop | UVStddevPop.
 Definition uw_val_of (f : lra_fn) (dur_ns : Z) : option uw_val :=
   match f with
-  | FRate => Some (UVSumDiv (dur_ms dur_ns))
+  | FRate => Some (UVSumDiv dur_ns)
   | FSumOverTime => Some UVSum
   | FAvgOverTime => Some UVAvg
   | FMaxOverTime => Some UVMax
@@ -256,7 +258,7 @@ Definition uw_val_of (f : lra_fn) (dur_ns : Z) : option uw_val :=
 Definition uw_val_sql (v : uw_val) : expr :=
   match v with
   | UVSum => Raw "sum(unwrap_1.value)"
-  | UVSumDiv ms => Sep " / " [Raw "sum(unwrap_1.value)"; FloatV (secs_text ms)]
+  | UVSumDiv d => Sep " / " [Raw "sum(unwrap_1.value)"; FloatV (secs_text d)]
   | UVAvg => Raw "avg(unwrap_1.value)"
   | UVMax => Raw "max(unwrap_1.value)"
   | UVMin => Raw "min(unwrap_1.value)"
@@ -279,17 +281,17 @@ Definition agg_val_sql (f : agg_fn) : expr :=
   end.
 
 (* the value column of Metrics15ShortcutPlanner *)
-Inductive m15_val := MVCount | MVCountDiv (ms : Z).
+Inductive m15_val := MVCount | MVCountDiv (dur_ns : Z).
 Definition m15_val_of (f : lra_fn) (dur_ns : Z) : option m15_val :=
   match f with
-  | FRate => Some (MVCountDiv (dur_ms dur_ns))
+  | FRate => Some (MVCountDiv dur_ns)
   | FCountOverTime => Some MVCount
   | _ => None
   end.
 Definition m15_val_sql (v : m15_val) : expr :=
   match v with
   | MVCount => Raw "countMerge(count)"
-  | MVCountDiv ms => Sep " / " [Raw "toFloat64(countMerge(count))"; FloatV (secs_text ms)]
+  | MVCountDiv d => Sep " / " [Raw "toFloat64(countMerge(count))"; FloatV (secs_text d)]
   end.
 
 (* fmt.Sprintf("intDiv(<col>, %d) * %[1]d", n): the bucket of a timestamp *)
